@@ -12,8 +12,112 @@ TAGS = ['C15']
 WEIGHTS = {'create': 20, 'writeSlot': 26, 'conv': 18, 'drop': 12, 'clone': 8, 'tryUnique': 6}
 
 
+H_CLASSES = ["unit", "u32", "b3", "loud", "zd"]
+T_CLASSES = ["u32", "b3", "u64", "loud", "zd", "unit"]
+HAS_DROP = {"loud": True, "zd": True}
+
+
+def class_sweep(ctx):
+    """the same abstract cases at every header / element class (no drop glue, drop glue, zero-sized with
+    and without a destructor): the model is generic in the values, so its verdict (panic or not, how
+    many header / element destructor runs) must carry over to every class."""
+    import random
+    from vlib import common, hist
+    rng = random.Random(ctx.seed * 31 + 15)
+    exe, out = common.cargo_build_bin(ctx, "uninit")
+    if exe is None:
+        ctx.oblige("corr:uninit-class-sweep-build", False, out[-1500:])
+        ctx.defer_nfi("the element-class sweep harness does not build against this tree:\n" + out[-2500:])
+        return
+    model = common.lean_exe("drv_hist")
+    lens = [0, 1, 2, 3] if not ctx.thorough() else [0, 1, 2, 3, 4, 5, 7]
+    cases = []
+    for h in H_CLASSES:
+        for t in T_CLASSES:
+            for n in lens:
+                masks = list(range(1 << n)) if n <= 3 else [rng.randrange(1 << n) for _ in range(6)] + [(1 << n) - 1, 0]
+                for m in masks:
+                    cases.append(("hs", h, t, n, m, "drop"))
+                cases.append(("hs", h, t, n, (1 << n) - 1, "init"))
+    for t in T_CLASSES:
+        for n in [1, 2, 3]:
+            for sh in (0, 1):
+                for idx in range(n):
+                    cases.append(("sl", t, n, sh, idx))
+        for sh in (0, 1):
+            cases.append(("un", t, sh))
+    lines = []
+    mhist = []
+    for c in cases:
+        lines.append(" ".join(str(x) for x in c))
+        if c[0] == "hs":
+            _, h, t, n, m, fin = c
+            ops = ["reset", "create 0 hsUninit 9:9 %d" % n] + ["writeSlot 0 %d %d:1" % (i, 100 + i) for i in range(n) if m >> i & 1]
+            ops += ["drop 0"] if fin == "drop" else ["conv 0 assumeInit", "conv 0 shareable", "clone 1 0", "drop 0", "drop 1"]
+        elif c[0] == "sl":
+            _, t, n, sh, idx = c
+            ops = ["reset", "create 0 newUninitSlice %d" % n] + ["writeSlot 0 %d %d:1" % (i, 100 + i) for i in range(n)] + (["clone 1 0"] if sh else []) + ["writeSlot 0 %d 999:9" % idx]
+        else:
+            _, t, sh = c
+            ops = ["reset", "create 0 newUninit", "writeSlot 0 0 100:1"] + (["clone 1 0"] if sh else []) + ["writeSlot 0 0 999:9"]
+        mhist.append(ops)
+    ilines, irc = hist.run_batch(exe, "\n".join(lines) + "\n")
+    mlines, mrc = hist.run_batch(model, "\n".join("\n".join(h) for h in mhist) + "\n")
+    if mrc != 0:
+        raise RuntimeError("model driver failed")
+    mh = hist.split_histories(mlines, mhist)
+    bad = []
+    for k, c in enumerate(cases):
+        obs = dict(x.split("=", 1) for x in (ilines[k].split() if k < len(ilines) else ["st=missing"]))
+        mobs = [hist.parse_obs(x) for x in mh[k][1:]]
+        if c[0] == "hs":
+            _, h, t, n, m, fin = c
+            m_hdr = sum(1 for o in mobs for e in o["ev"] if e == "drop:9")
+            m_el = sum(1 for o in mobs for e in o["ev"] if e.startswith("drop:") and e != "drop:9")
+            want_h = m_hdr if HAS_DROP.get(h) else 0
+            want_e = m_el if HAS_DROP.get(t) else 0
+            why = []
+            if obs.get("st") != "ok":
+                why.append("status %s" % obs.get("st"))
+            if int(obs.get("hdrop_after_ctor", 0)) or int(obs.get("hdrop_after_writes", 0)) or int(obs.get("edrop_after_writes", 0)):
+                why.append("a destructor ran while the uninitialised handle was alive (header %s/%s, elements %s)" % (
+                    obs.get("hdrop_after_ctor"), obs.get("hdrop_after_writes"), obs.get("edrop_after_writes")))
+            if int(obs.get("hdrop", -1)) != want_h:
+                why.append("header destroyed %s times, model and property say %d" % (obs.get("hdrop"), want_h))
+            if int(obs.get("edrop", -1)) != want_e:
+                why.append("%s element destructor runs, model and property say %d" % (obs.get("edrop"), want_e))
+            if fin == "init" and (obs.get("cont") != "1" or obs.get("cnt") != "2" or int(obs.get("hdrop_shared", 0)) or int(obs.get("edrop_shared", 0)) or int(obs.get("hdrop_one_left", 0))):
+                why.append("after assume_init: contents ok=%s count=%s, destructor runs while owned: %s/%s/%s" % (
+                    obs.get("cont"), obs.get("cnt"), obs.get("hdrop_shared"), obs.get("edrop_shared"), obs.get("hdrop_one_left")))
+        else:
+            shared = c[3] if c[0] == "sl" else c[2]
+            m_st = mobs[-1]["status"]
+            want = "panic" if m_st.startswith("panic") else "ok"
+            why = []
+            if obs.get("st") != want:
+                why.append("deprecated write on a %s handle: %s, model says %s" % ("shared" if shared else "unique", obs.get("st"), m_st))
+            if (want == "panic") != bool(shared):
+                why.append("MODEL deviates from the property (panic iff shared)")
+            if obs.get("other_changed") == "1":
+                why.append("the write is visible through the other handle")
+        if why:
+            bad.append((lines[k], ilines[k] if k < len(ilines) else "", " ; ".join(mh[k]), why))
+    ctx.oblige("corr:uninit-class-sweep", not bad, "%d failing cases" % len(bad))
+    ctx.coverage["class_sweep"] = {"cases": len(cases), "header_classes": H_CLASSES, "element_classes": T_CLASSES, "failures": len(bad),
+                                   "sample": {"case": lines[len(lines) // 2], "impl": ilines[len(lines) // 2] if len(ilines) > len(lines) // 2 else ""}}
+    ctx.coverage["evaluations"] = ctx.coverage.get("evaluations", 0) + len(cases)
+    if bad:
+        bad.sort(key=lambda b: len(b[0]))
+        body = ["uninitialised construction over header/element classes: the real crate vs the (value-generic) model and the property", ""]
+        for (ln, il, mm, why) in bad[:6]:
+            body += ["case : " + ln, "  impl : " + il, "  model: " + mm[-300:], "  PROPERTY C15 FAILS: " + "; ".join(why), ""]
+        body.append("(%d failing cases in total)" % len(bad))
+        ctx.violation("ops", "\n".join(body), True)
+
+
 def run(ctx):
     histcheck.run(ctx, MODULE, WEIGHTS, TAGS, lean_extra=EXTRA)
+    class_sweep(ctx)
 
 
 def replay(ctx, path):
